@@ -93,7 +93,8 @@ def forked(fn):
         if not b: break
         chunks.append(b)
     os.close(r); _, st = os.waitpid(pid, 0)
-    if os.WIFSIGNALED(st): raise NativeCrash('native execution of the real code was killed by signal %d' % os.WTERMSIG(st))
+    if os.WIFSIGNALED(st):
+        e = NativeCrash('native execution of the real code was killed by signal %d' % os.WTERMSIG(st)); e.sig = os.WTERMSIG(st); raise e
     if not chunks: raise NativeCrash('native execution child exited without a result (status %d)' % st)
     kind, val = pickle.loads(b''.join(chunks))
     if kind == 'exc': raise RuntimeError(val)
@@ -592,10 +593,12 @@ class Session:
             rec['status'] = 'counterexample'
             if replay is not None:
                 try: verdict, info = replay(m)
-                except NativeCrash as e:       # the real code crashed on the solver's counterexample inputs: the defect is observable natively
-                    verdict, info = 'reproduced', {'native_crash': str(e), 'obligation': name, 'property': s.pid, 'pin_name': name}
+                except NativeCrash as e:       # the real code crashed (SIGSEGV / SIGBUS / SIGILL ...) on the solver's counterexample inputs: the defect is observable natively.
+                    # SIGABRT is glm's own assert(): the inputs violate a documented precondition, which is not a reproduction of anything
+                    if getattr(e, 'sig', None) == 6 and kind != 'trap': verdict, info = 'not-reproduced', {'note': 'the native run stopped in an assert() of glm (precondition violated by the model inputs): ' + str(e)}
+                    else: verdict, info = 'reproduced', {'native_crash': str(e), 'obligation': name, 'property': s.pid, 'pin_name': name}
                 except Exception as e:
-                    verdict, info = ('reproduced', {'native_crash': str(e), 'obligation': name, 'property': s.pid, 'pin_name': name}) if 'killed by signal' in str(e) else ('replay-error', {'error': traceback.format_exc()[-1500:]})
+                    verdict, info = ('reproduced', {'native_crash': str(e), 'obligation': name, 'property': s.pid, 'pin_name': name}) if ('killed by signal' in str(e) and 'signal 6' not in str(e)) else ('replay-error', {'error': traceback.format_exc()[-1500:]})
                 rec['replay'] = verdict; rec['replay_info'] = info
                 if verdict != 'reproduced' and rgoal is not None:
                     # rounding-erased counterexamples found by nlsat often violate the atom by 1e-9 at huge / tiny inputs and drown in the float replay:
